@@ -7,7 +7,10 @@ package jsonproto
 
 // C15: decoding never writes into a shared status
 //@ func (*jsonproto).Unpack
-//@   property C15 C12 C06 C04
+//@   property C15 C12 C06 C04 C05
+// C05 frame synchronisation: an accepted frame took the 4-byte size field plus exactly
+// as many bytes as the field announces, so the next read starts at the next frame
+//@   ensures[frame-sync-consumed-equals-declared-size] @C05 result == nil ==> ghost.consumed == old(ghost.consumed) + 4 + as(m, type(*socket.message)).size
 //@   ensures[status-field-decoded] @C04 result == nil && as(m, type(*socket.message)).size != 0 ==> as(m, type(*socket.message)).status != nil && as(m, type(*socket.message)).status.#fromWire
 //@   requires msgOwnStatus(as(m, type(*socket.message)))
 
@@ -20,5 +23,27 @@ package jsonproto
 //@ func appendJSONString
 //@   property C05
 //@   flags safety
+//@   modifies allelems(type(byte))
 //@   ensures[grows] len(result) >= len(dst) + len(b)
 //@   loop 0: invariant[grows] $idx >= -1 && $idx < len(b) && len(dst) >= old(len(dst)) + $idx + 1
+
+// ---- C05: the size field of a packed frame counts what follows it -----------------------
+// (size = pipe-length byte + filter ids + packed payload; the 4-byte field itself is
+// not counted; stated for sizes within the field's 32-bit range)
+//@ iface socket.IOWithReadBuffer.Write in proto/jsonproto.(*jsonproto).Pack
+//@   params w p
+//@   flags libframe
+//@   modifies ghost.written, ghost.lastWriteLen, ghost.lastWriteBase, ghost.lastWriteOff, ghost.connWrites
+//@   ghostset ghost.lastWriteLen = len(p)
+//@   ghostset ghost.lastWriteBase = base(p)
+//@   ghostset ghost.lastWriteOff = off(p)
+//@   ghostset ghost.connWrites = old(ghost.connWrites) + 1
+//@ func (*jsonproto).Pack
+//@   property C05
+//@   flags libframe frame-unchecked
+//@   let pm = as(m, type(*socket.message))
+//@   ensures[single-write-per-frame] ghost.connWrites <= old(ghost.connWrites) + 1 && (result == nil ==> ghost.connWrites == old(ghost.connWrites) + 1)
+//@   ensures[size-field-opens-the-frame] result == nil ==> ghost.lastWriteBase == ghost.lastPut32Base && ghost.lastWriteOff == ghost.lastPut32Off
+//@   ensures[size-field-counts-the-rest-of-the-frame] result == nil && ghost.lastPut32 <= 4294967291 ==> ghost.lastWriteLen == ghost.lastPut32 + 4
+//@   ensures[declared-size-is-the-size-field] result == nil ==> pm.size == ghost.lastPut32
+//@   ensures[size-covers-pipe-ids-and-payload] result == nil && 1 + len(pm.xferPipe.filters) + ghost.lastPackedLen <= socket.messageSizeLimit ==> pm.size == 1 + len(pm.xferPipe.filters) + ghost.lastPackedLen
